@@ -40,28 +40,28 @@ CHECKS = {
  "C11": ("exhaustive enumeration of all maps new[m] -> old[n] (m, n <= 3 quick, <= 5 thorough), all kind assignments, all window offsets across each backend's register/spill boundary, with and without object padding, plus seeded random larger substitutions with aliased and multi-block objects; each configuration is executed on the emulator with the heap auditor and compared with the AxCut machine",
          "trusts emulators, heap auditor and AxCut machine; the substitution is observed through a generated prelude/epilogue, not a hand-prepared machine state",
          "exhaustive enumeration of a finite configuration space + property-based sampling beyond it, differential oracle with heap invariant"),
- "C12": ("generated accepted Fun programs and directly generated well-typed Core programs are pushed through every stage under catch_unwind; independent type/scope checkers for Core (unfocused, uniquified, focused), AxCut (non-linear) and the ordered linear discipline; all three code generators",
+ "C12": ("generated accepted Fun programs and directly generated well-typed Core programs are pushed through every stage under catch_unwind; independent type/scope checkers for Core (unfocused, uniquified, focused), AxCut (non-linear) and the ordered linear discipline; all three code generators; plus an instance-name matrix (an instance whose printed name is exactly L characters, L = 20..240)",
          "trusts the independent checkers' reading of the typing rules listed in the property",
          "property-based testing with independent type checkers as oracles at every stage"),
- "C15": ("accept side: programs well-typed by construction must be accepted; reject side: 18 classes of single certainly-ill-typed edits (including a constructor / destructor of a different type with the same type arguments) applied at every applicable site must be rejected with an error (not accepted, no panic)",
+ "C15": ("accept side: programs well-typed by construction must be accepted; reject side: 20 classes of single certainly-ill-typed edits (including a constructor / destructor of a different type with the same type arguments, a duplicated binder, the same covariable at two consumer types) applied at every applicable site must be rejected with an error (not accepted, no panic)",
          "trusts the generator's typing discipline (accept) and that each mutation class is ill-typed under any reading (reject)",
          "property-based testing: constructive generation + mutation-based negative testing"),
- "C14": ("assembly of all three backends for generated programs with adversarial identifiers, for the same programs extended by a definition whose name is chosen (two-pass) to print as a compiler-generated label, and for directly generated linear programs: text validator (labels unique/defined, runtime symbols, immediate/shift/offset ranges per instruction form), GNU as on the transliterated x86-64 file plus jump-table stride read from the object's symbol table, llvm-mc on the AArch64 text",
+ "C14": ("assembly of all three backends for generated programs with adversarial identifiers, for the same programs extended by a definition whose name is chosen (two-pass) to print as a compiler-generated label, and for directly generated linear programs: text validator (labels unique/defined, runtime symbols, immediate/shift/offset ranges per instruction form), GNU as on the transliterated x86-64 file plus jump-table stride read from the object's symbol table, llvm-mc on the AArch64 text; plus a large-code matrix (every comparison form with a branch of 1200/4000 statements, large matches and cocases: branch displacements of 50-400 KiB)",
          "GNU as stands in for yasm, llvm-mc for the AArch64 assembler; RISC-V pseudo-assembly has no assembler, only the validator applies",
          "property-based testing with the real assemblers as oracles plus an independent well-formedness validator; adversarial two-pass name generation"),
  "C16": ("grammar-directed random programs (all term forms in all operand positions, comments/blank lines), generated typed programs and the repository's .sc files, each at 3 configurations from widths 1..200 and indents 0..8: parse -> print -> parse must give the same tree and printing again the same text; three recorded inputs of known finding D9 are replayed and reported as KNOWN-FINDING",
          "derived equality on the repository's AST ignores spans only; the known finding's shape (literal 0 token adjacent to a comparison operator) is excluded from generation by construction",
          "property-based round-trip testing (parse/print/parse)"),
- "C17": ("(a) each generated program is compiled in 8 (quick) / 32 (thorough) fresh processes with varied environment and working directory; all printed stages must be byte-identical; (b) the same program compiled alone, twice and after other programs in one process must agree up to renumbering of generated label counters",
+ "C17": ("(a) each generated program is compiled in 8 (quick) / 32 (thorough) fresh processes with varied environment and working directory; all printed stages must be byte-identical; (b) the same program compiled alone, twice and after other programs in one process must agree up to renumbering of generated label counters; (c) the real scc binary: repeated runs, two working directories, and three histories in one directory (same path overwritten by another program, same-length edit, same file name in two directories with old time stamps) must write the files a fresh directory gets",
          "hash seeds cannot be chosen, processes sample them; the library stages are run, not the scc binary",
          "differential testing across processes and compilation histories (metamorphic relation: same input, different process state)"),
- "C18": ("token-level and byte-level mutations of valid programs, extreme literals, nesting up to a fixed depth, entry-point variations and random parseable-but-ill-typed programs: parser and checker must return Ok/Err, accepted programs with a valid entry must pass all later stages without a panic other than the documented capacity assertions; a declaration-stress domain (polymorphic declarations with non-regular and mutual recursion) is compiled in child processes so that an aborting or stack-exhausting compiler is observed; thorough adds a libFuzzer target",
+ "C18": ("token-level and byte-level mutations of valid programs, extreme literals, nesting up to a fixed depth, entry-point variations and random parseable-but-ill-typed programs: parser and checker must return Ok/Err, accepted programs with a valid entry must pass all later stages without a panic other than the documented capacity assertions; a declaration-stress domain (polymorphic declarations with non-regular and mutual recursion) is compiled in child processes so that an aborting or stack-exhausting compiler is observed; exotic tokens (compound tokens stretched by non-ASCII white space, very long names and numbers), declarations without xtors; thorough adds a libFuzzer target",
          "stack exhaustion by unboundedly deep nesting is outside the property ('within stack limits'); the RISC-V backend's documented print limitation is tolerated",
          "mutation-based fuzzing with a crash/panic oracle (catch_unwind) + coverage-guided libFuzzer target"),
- "C19": ("scalable families (sequenced/nested conditionals and matches, critical pairs over multi-constructor types, codata results with one and two destructors, branch points in let bindings and call arguments, every kind of statement directly after a branch point, random mixtures): every stage's size at depth 2k is at most 16x its size at depth k for k = 4..8",
+ "C19": ("scalable families (sequenced/nested conditionals and matches, critical pairs over multi-constructor types, codata results with one and two destructors, branch points in let bindings and call arguments, every kind of statement directly after a branch point, branch points directly under destructors and in constructor/destructor arguments, several branch points lifted out of one statement, random mixtures): every stage's size at depth 2k is at most 16x its size at depth k for k = 4..8",
          "size measured on the printed form of each stage; witnesses polynomial growth on families, cannot prove it for all programs",
          "metamorphic testing over scalable generated families (growth-rate oracle)"),
- "C20": ("io.c linked with a small C main: all boundary values and random 64-bit values against Rust's formatting; programs printing all parameters compiled through the real pipeline and C driver for 0..5 parameters with boundary/random arguments, wrong argument counts, exit status; AArch64 entry with 0..7 arguments on the emulator",
+ "C20": ("io.c linked with a small C main: all boundary values and random 64-bit values against Rust's formatting, also in runs of up to 1650 values without a newline; programs printing all parameters compiled through the real pipeline and C driver for 0..5 parameters with boundary/random arguments in canonical, zero-padded and plus-signed spelling, wrong argument counts, exit status, six heap sizes; AArch64 entry with 0..7 arguments on the emulator",
          "gcc/GNU as of the sandbox; AArch64 on the emulator only",
          "property-based testing against a reference formatter and the source semantics, native execution"),
 }
